@@ -1641,6 +1641,7 @@ func (p *process) Forward(
 // internal
 
 func (p *process) run() {
+	lib.VerifPoint("run.cas", p)
 	if atomic.CompareAndSwapInt32(
 		&p.state,
 		int32(gen.ProcessStateSleep),
@@ -1649,23 +1650,30 @@ func (p *process) run() {
 		// already running or terminated
 		return
 	}
+	lib.VerifPoint("run.spawn", p)
 	go func() {
+		lib.VerifPoint("run.start", p)
+		defer lib.VerifPoint("run.exit", p)
 		if lib.Recover() {
 			defer func() {
 				if rcv := recover(); rcv != nil {
 					pc, fn, line, _ := runtime.Caller(2)
 					p.log.Panic("process terminated - %#v at %s[%s:%d]",
 						rcv, runtime.FuncForPC(pc).Name(), fn, line)
+					lib.VerifPoint("run.swapT.panic", p)
 					old := atomic.SwapInt32(&p.state, int32(gen.ProcessStateTerminated))
 					if old == int32(gen.ProcessStateTerminated) {
 						return
 					}
+					lib.VerifPoint("run.unreg", p)
 					p.node.unregisterProcess(p, gen.TerminateReasonPanic)
+					lib.VerifPoint("run.term", p)
 					p.behavior.ProcessTerminate(gen.TerminateReasonPanic)
 				}
 			}()
 		}
 	next:
+		lib.VerifPoint("run.next", p)
 		startTime := time.Now().UnixNano()
 		// handle mailbox
 		if err := p.behavior.ProcessRun(); err != nil {
@@ -1678,12 +1686,15 @@ func (p *process) run() {
 				p.log.Error("process terminated abnormally - %s", err)
 			}
 
+			lib.VerifPoint("run.swapT.err", p)
 			old := atomic.SwapInt32(&p.state, int32(gen.ProcessStateTerminated))
 			if old == int32(gen.ProcessStateTerminated) {
 				return
 			}
 
+			lib.VerifPoint("run.unreg", p)
 			p.node.unregisterProcess(p, e)
+			lib.VerifPoint("run.term", p)
 			p.behavior.ProcessTerminate(err)
 			return
 		}
@@ -1692,24 +1703,32 @@ func (p *process) run() {
 		p.runningTime = p.runningTime + uint64(time.Now().UnixNano()-startTime)
 
 		// change running state to sleep
+		lib.VerifPoint("run.cas.sleep", p)
 		if atomic.CompareAndSwapInt32(
 			&p.state,
 			int32(gen.ProcessStateRunning),
 			int32(gen.ProcessStateSleep),
 		) == false {
 			// process has been killed (was in zombee state)
+			lib.VerifPoint("run.swapT.kill", p)
 			old := atomic.SwapInt32(&p.state, int32(gen.ProcessStateTerminated))
 			if old == int32(gen.ProcessStateTerminated) {
 				return
 			}
+			lib.VerifPoint("run.unreg", p)
 			p.node.unregisterProcess(p, gen.TerminateReasonKill)
+			lib.VerifPoint("run.term", p)
 			p.behavior.ProcessTerminate(gen.TerminateReasonKill)
 			return
 		}
 		// check if something left in the inbox and try to handle it
+		lib.VerifPoint("run.item", p)
 		if p.mailbox.Main.Item() == nil {
+			lib.VerifPoint("run.item", p)
 			if p.mailbox.System.Item() == nil {
+				lib.VerifPoint("run.item", p)
 				if p.mailbox.Urgent.Item() == nil {
+					lib.VerifPoint("run.item", p)
 					if p.mailbox.Log.Item() == nil {
 						// inbox is emtpy
 						return
@@ -1718,6 +1737,7 @@ func (p *process) run() {
 			}
 		}
 		// we got a new messages. try to use this goroutine again
+		lib.VerifPoint("run.cas.wake", p)
 		if atomic.CompareAndSwapInt32(
 			&p.state,
 			int32(gen.ProcessStateSleep),
@@ -1766,6 +1786,7 @@ func (p *process) waitResponse(ref gen.Ref, timeout int) (any, error) {
 	var response any
 	var err error
 
+	lib.VerifPoint("wait.cas1", p)
 	if swapped := atomic.CompareAndSwapInt32(&p.state, int32(gen.ProcessStateRunning), int32(gen.ProcessStateWaitResponse)); swapped == false {
 		return nil, gen.ErrNotAllowed
 	}
@@ -1780,6 +1801,7 @@ func (p *process) waitResponse(ref gen.Ref, timeout int) (any, error) {
 	}
 
 retry:
+	lib.VerifPoint("wait.select", p)
 	select {
 	case <-timer.C:
 		if lib.Trace() {
@@ -1800,6 +1822,7 @@ retry:
 		err = r.err
 	}
 
+	lib.VerifPoint("wait.cas2", p)
 	if swapped := atomic.CompareAndSwapInt32(&p.state, int32(gen.ProcessStateWaitResponse), int32(gen.ProcessStateRunning)); swapped == false {
 		return nil, gen.ErrProcessTerminated
 	}
